@@ -73,13 +73,24 @@ def r20_1(ctx):
     out = Outcome("R20.1", "patch_segment: degree d in {1,2,3} gives the d control points after the first with d codes "
                            "LINETO / CURVE3 / CURVE4; any other degree raises (no silent drop)", floor=4)
     out.exhaustive = True
-    fn = ctx.fn("plot.patch_segment")
     want_code = {1: "LINETO", 2: "CURVE3", 3: "CURVE4"}
+    per_segment = "plot.patch_segment" in ctx.model.funcs
+    # the per-segment helper when there is one; otherwise the same facts are observed on path_jordan applied to a
+    # one-segment curve (the helper may have been merged into the loop of its callers)
+    fn = ctx.fn("plot.patch_segment" if per_segment else "plot.path_jordan")
     for d in (1, 2, 3, 4):
         s = seg("s", d)
         path = PathNS()
         try:
-            got = with_globals(ctx, fn, [s], {"Path": path})
+            if per_segment:
+                got = with_globals(ctx, fn, [s], {"Path": path})
+            else:
+                _, verts, codes = with_globals(ctx, fn, [Obj("j", segments=(s,))], {"Path": path})
+                names = [c.name for c in codes]
+                if names[:1] != ["MOVETO"] or names[-1:] != ["CLOSEPOLY"]:
+                    raise Undecided(f"path of a one-segment curve has codes {names}")
+                got = ([tuple(v) for v in list(verts)[1:-1]], list(codes)[1:-1])
+                s = Obj("s'", degree=d, ctrlpoints=tuple(tuple(map(float, p)) for p in s.ctrlpoints))
             raised = None
         except Raised as r:
             got, raised = None, r.what
@@ -91,7 +102,7 @@ def r20_1(ctx):
                 out.bad(fn.qname, f"degree {d} raises {raised}", where=fn.where())
                 continue
             verts, codes = got
-            ok = list(verts) == list(s.ctrlpoints[1:]) and [c.name for c in codes] == [want_code[d]] * d
+            ok = [tuple(v) for v in verts] == [tuple(v) for v in s.ctrlpoints[1:]] and [c.name for c in codes] == [want_code[d]] * d
             if ok:
                 out.ok(fn.qname, f"degree {d} -> {d} x {want_code[d]}", where=fn.where())
             elif len(verts) == 0:
@@ -116,8 +127,9 @@ def r20_1(ctx):
 def r20_3(ctx):
     out = Outcome("R20.3", "each boundary curve is drawn as MOVETO(first point) + the patches of all its segments in order "
                            "+ CLOSEPOLY; path_shape does so for every curve of the component", floor=2)
-    j0 = Obj("j0", segments=(seg("a", 1), seg("b", 2), seg("c", 3)))
-    j1 = Obj("j1", segments=(seg("d", 1), seg("e", 1)))
+    # mixed degrees in every order: a straight piece before and after a curved one, a cubic after a quadratic ...
+    j0 = Obj("j0", segments=(seg("a", 2), seg("b", 1), seg("c", 3), seg("d", 1), seg("e", 2)))
+    j1 = Obj("j1", segments=(seg("f", 1), seg("g", 3), seg("h", 1), seg("i", 1)))
 
     def expected(j):
         v = [j.segments[0].ctrlpoints[0]]
